@@ -129,10 +129,24 @@ theorem updateParams_ok {now : Nat} {reg : Reg} {remote : Option Str} {q : Query
         · cases h
         · cases h; simp
 
+/-- an accepted `lt`: absent, or given once with a value `int` reads -/
+theorem ltOf_ok {vs : List Val} {o : Option Int} {dflt : Int} (h : ltOf vs = .ok o) :
+    (vs = [] ∧ o.getD dflt = dflt) ∨ (∃ v, vs = [some v] ∧ parseInt v = some (o.getD dflt)) := by
+  unfold ltOf at h
+  match vs, h with
+  | [], h => simp [popSingle] at h; subst h; exact Or.inl ⟨rfl, rfl⟩
+  | [none], h => simp [popSingle] at h
+  | [some v], h =>
+    simp only [popSingle] at h
+    split at h
+    · next n hn => cases h; exact Or.inr ⟨v, rfl, by simpa using hn⟩
+    · cases h
+  | _ :: _ :: _, h => simp [popSingle] at h
+
 /-- the lifetime a successful `update_params` leaves: the given one, else the old one -/
 theorem updateParams_lt {now : Nat} {reg : Reg} {remote : Option Str} {q : Query} {ini : Bool}
     {r : Reg} (h : updateParams now reg remote q ini = .ok r) :
-    (vals sLt q = [] ∧ r.lt = reg.lt) ∨ (∃ v, vals sLt q = [v] ∧ parseInt v = some r.lt) := by
+    (vals sLt q = [] ∧ r.lt = reg.lt) ∨ (∃ v, vals sLt q = [some v] ∧ parseInt v = some r.lt) := by
   unfold updateParams at h
   split at h
   · cases h
@@ -145,31 +159,33 @@ theorem updateParams_lt {now : Nat} {reg : Reg} {remote : Option Str} {q : Query
         · cases h
         · cases h
           simp only
-          unfold popSingle at hlt
-          split at hlt
-          · next hv => cases hlt; left; exact ⟨hv, rfl⟩
-          · next v hv =>
-            split at hlt
-            · next x hx => cases hlt; right; exact ⟨v, hv, by simpa using hx⟩
-            · cases hlt
-          · cases hlt
+          exact ltOf_ok hlt
 
-theorem popSingle_some {vs : List Str} {o : Option Str} (h : popSingle vs some = .ok o) :
-    vs = o.toList := by
-  unfold popSingle at h
-  split at h
-  · cases h; rfl
-  · split at h
-    · next x hx => cases h; cases hx; rfl
-    · cases h
-  · cases h
+/-- an accepted `ep`: given exactly once, with a value -/
+theorem epOf_ok {vs : List Val} {ep : Str} (h : epOf vs = .ok ep) : vs = [some ep] := by
+  unfold epOf at h
+  match vs, h with
+  | [some e], h => simp [popSingle] at h; rw [h]
+  | [], h => simp [popSingle] at h
+  | [none], h => simp [popSingle] at h
+  | _ :: _ :: _, h => simp [popSingle] at h
+
+/-- the sector of an accepted registration: the single value of `d`; none when `d` is absent or has
+no value -/
+theorem dOf_ok {vs : List Val} {d : Option Str} (h : dOf vs = .ok d) :
+    vs = [d] ∨ (vs = [] ∧ d = none) := by
+  unfold dOf at h
+  match vs, h with
+  | [v], h => simp [popSingle] at h; rw [h]; exact Or.inl rfl
+  | [], h => simp [popSingle] at h; exact Or.inr ⟨rfl, h.symm⟩
+  | _ :: _ :: _, h => simp [popSingle] at h
 
 /-- What an accepted registration request stores: name and sector from the query, the links of
 the body, the current tick, and the location of the registration it replaces (a fresh one if
 there is none). -/
 theorem registerReg_ok {s : State} {remote : Option Str} {q : Query} {body : Body} {r : Reg}
     (h : registerReg s remote q body = .ok r) :
-    linksOf body = .ok r.links ∧ vals sEp q = [r.ep] ∧ vals sD q = r.d.toList ∧
+    linksOf body = .ok r.links ∧ vals sEp q = [some r.ep] ∧ dOf (vals sD q) = .ok r.d ∧
     r.refreshedAt = s.now ∧
     r.path = (match aget r.key s.byKey with
               | some old => old.path
@@ -179,7 +195,6 @@ theorem registerReg_ok {s : State} {remote : Option Str} {q : Query} {body : Bod
   · cases h
   · next links hl =>
     split at h
-    · cases h
     · cases h
     · next ep hep =>
       split at h
@@ -193,8 +208,8 @@ theorem registerReg_ok {s : State} {remote : Option Str} {q : Query} {body : Bod
           obtain ⟨h1, h2, h3, _, h5⟩ := updateParams_ok hr0
           simp only at h1 h2 h3 h5
           refine ⟨by simpa using hl, ?_, ?_, by simpa using h5, ?_⟩
-          · simpa [h1] using popSingle_some hep
-          · simpa [h2] using popSingle_some hd
+          · simpa [h1] using epOf_ok hep
+          · simpa [h2] using hd
           · simp only [Reg.key, h1, h2, h3]
             cases aget (ep, d) s.byKey <;> rfl
 
@@ -432,8 +447,8 @@ theorem decideOp_write {s : State} {op : Op} {r : Reg} {resp : Resp} (hi : Inv s
   | delete path => simp only [decideOp] at h; split at h <;> cases h
   | read path => simp only [decideOp] at h; split at h <;> cases h
   | advance dt => simp [decideOp] at h
-  | lookupEp q => simp [decideOp] at h
-  | lookupRes q => simp [decideOp] at h
+  | lookupEp q => simp only [decideOp] at h; split at h <;> cases h
+  | lookupRes q => simp only [decideOp] at h; split at h <;> cases h
 
 theorem decideOp_remove {s : State} {op : Op} {r : Reg} (hi : Inv s)
     (h : decideOp s op = .remove r) : (r.path, r) ∈ s.byPath := by
@@ -456,8 +471,8 @@ theorem decideOp_remove {s : State} {op : Op} {r : Reg} (hi : Inv s)
     repeat (split at h <;> try cases h)
   | read path => simp only [decideOp] at h; split at h <;> cases h
   | advance dt => simp [decideOp] at h
-  | lookupEp q => simp [decideOp] at h
-  | lookupRes q => simp [decideOp] at h
+  | lookupEp q => simp only [decideOp] at h; split at h <;> cases h
+  | lookupRes q => simp only [decideOp] at h; split at h <;> cases h
 
 -- one step -----------------------------------------------------------------------------------------
 
@@ -639,8 +654,8 @@ theorem finalState_mem {c : Cfg} {s : State} (hi : Inv s) (hl : AllLive c s) (op
 
 -- small facts used by the property theorems ----------------------------------------------------------
 
-theorem vals_filter {k : Str} {q : Query} {p : Str × Str → Bool}
-    (h : ∀ e : Str × Str, e.1 = k → p e = true) : vals k (q.filter p) = vals k q := by
+theorem vals_filter {k : Str} {q : Query} {p : Str × Val → Bool}
+    (h : ∀ e : Str × Val, e.1 = k → p e = true) : vals k (q.filter p) = vals k q := by
   unfold vals
   rw [List.filter_filter]
   congr 1
@@ -695,8 +710,8 @@ theorem decideOp_write_resp {s : State} {op : Op} {r : Reg} {resp : Resp}
   | delete path => simp only [decideOp] at h; split at h <;> cases h
   | read path => simp only [decideOp] at h; split at h <;> cases h
   | advance dt => simp [decideOp] at h
-  | lookupEp q => simp [decideOp] at h
-  | lookupRes q => simp [decideOp] at h
+  | lookupEp q => simp only [decideOp] at h; split at h <;> cases h
+  | lookupRes q => simp only [decideOp] at h; split at h <;> cases h
 
 /-- a read-only answer is a registration payload or a lookup result -/
 theorem decideOp_reply {s : State} {op : Op} {resp : Resp} (h : decideOp s op = .reply resp) :
@@ -716,8 +731,174 @@ theorem decideOp_reply {s : State} {op : Op} {resp : Resp} (h : decideOp s op = 
     · cases h
     · cases h; exact Or.inl ⟨_, rfl⟩
   | advance dt => simp [decideOp] at h
-  | lookupEp q => simp only [decideOp] at h; cases h; exact Or.inr (Or.inl ⟨_, rfl⟩)
-  | lookupRes q => simp only [decideOp] at h; cases h; exact Or.inr (Or.inr ⟨_, rfl⟩)
+  | lookupEp q =>
+    simp only [decideOp] at h
+    split at h
+    · cases h
+    · cases h; exact Or.inr (Or.inl ⟨_, rfl⟩)
+  | lookupRes q =>
+    simp only [decideOp] at h
+    split at h
+    · cases h
+    · cases h; exact Or.inr (Or.inr ⟨_, rfl⟩)
+
+-- round 4: options without a value, bases `urlsplit` refuses ------------------------------------------
+
+/-- an accepted `base` has a value and passed the `urlsplit` check -/
+theorem baseOf_ok {vs : List Val} {b : Str} (h : baseOf vs = .ok (some b)) :
+    vs = [some b] ∧ urlsplitOk b = true := by
+  unfold baseOf at h
+  match vs, h with
+  | [], h => simp [popSingle] at h
+  | [none], h => simp [popSingle] at h
+  | [some v], h =>
+    simp only [popSingle] at h
+    split at h
+    · next hv => cases h; exact ⟨rfl, hv⟩
+    · cases h
+  | _ :: _ :: _, h => simp [popSingle] at h
+
+/-- `update_params` never succeeds on a query whose `lt` has no value … -/
+theorem updateParams_valueless_lt {now : Nat} {reg : Reg} {remote : Option Str} {q : Query}
+    {ini : Bool} (h : vals sLt q = [none]) : ∃ e, updateParams now reg remote q ini = .error e := by
+  unfold updateParams
+  split
+  · exact ⟨_, rfl⟩
+  · split
+    · exact ⟨_, rfl⟩
+    · simp [h, ltOf, popSingle]
+
+/-- … or whose `base` has no value, or one `urlsplit` refuses -/
+theorem updateParams_bad_base {now : Nat} {reg : Reg} {remote : Option Str} {q : Query}
+    {ini : Bool} (h : vals sBase q = [none] ∨ ∃ b, vals sBase q = [some b] ∧ urlsplitOk b = false) :
+    ∃ e, updateParams now reg remote q ini = .error e := by
+  unfold updateParams
+  split
+  · exact ⟨_, rfl⟩
+  · split
+    · exact ⟨_, rfl⟩
+    · split
+      · exact ⟨_, rfl⟩
+      · rcases h with h | ⟨b, h, hb⟩
+        · simp [h, baseOf, popSingle]
+        · simp [h, baseOf, popSingle, hb]
+
+/-- an explicit base in a registration is one `urlsplit` accepts, if that held before -/
+theorem updateParams_base {now : Nat} {reg : Reg} {remote : Option Str} {q : Query} {ini : Bool}
+    {r : Reg} (h : updateParams now reg remote q ini = .ok r)
+    (hreg : reg.baseExplicit = true → urlsplitOk reg.base = true) :
+    r.baseExplicit = true → urlsplitOk r.base = true := by
+  unfold updateParams at h
+  split at h
+  · cases h
+  · split at h
+    · cases h
+    · split at h
+      · cases h
+      · split at h
+        · cases h
+        · next setBase hb =>
+          cases h
+          simp only
+          cases setBase with
+          | some b => intro _; exact (baseOf_ok hb).2
+          | none =>
+            simp only [Option.isSome_none, Bool.false_or]
+            intro he
+            simp [he, hreg he]
+
+/-- an accepted registration request went through `update_params` with the options other than
+`ep` and `d` -/
+theorem registerReg_ok_updateParams {s : State} {remote : Option Str} {q : Query} {body : Body}
+    {r : Reg} (h : registerReg s remote q body = .ok r) :
+    ∃ fresh r0, updateParams s.now fresh remote
+      (q.filter (fun e => decide (e.1 ≠ sEp ∧ e.1 ≠ sD))) true = .ok r0 := by
+  unfold registerReg at h
+  split at h
+  · cases h
+  · split at h
+    · cases h
+    · split at h
+      · cases h
+      · simp only at h
+        split at h
+        · cases h
+        · next r0 hr0 => exact ⟨_, r0, hr0⟩
+
+/-- every explicit base in the directory is one `urlsplit` accepts -/
+def BasesOk (s : State) : Prop := ∀ r ∈ s.regs, r.baseExplicit = true → urlsplitOk r.base = true
+
+theorem decideOp_write_base {s : State} {op : Op} {r : Reg} {resp : Resp} (hi : Inv s)
+    (hb : BasesOk s) (h : decideOp s op = .write r resp) :
+    r.baseExplicit = true → urlsplitOk r.base = true := by
+  cases op with
+  | register remote q body =>
+    simp only [decideOp] at h
+    split at h
+    · cases h
+    · next r' hr' =>
+      cases h
+      unfold registerReg at hr'
+      split at hr'
+      · cases hr'
+      · split at hr'
+        · cases hr'
+        · split at hr'
+          · cases hr'
+          · simp only at hr'
+            split at hr'
+            · cases hr'
+            · next r0 hr0 =>
+              cases hr'
+              exact updateParams_base (r := r0) hr0 (by intro h; cases h)
+  | update path remote q body =>
+    simp only [decideOp] at h
+    split at h
+    · cases h
+    · next reg hreg =>
+      split at h
+      · cases h
+      · split at h
+        · cases h
+        · next r' hr' =>
+          cases h
+          have hm := (hi.pathToKey _ _ (aget_some_mem hreg)).2
+          exact updateParams_base hr' (hb reg ((mem_regs hi).mpr hm))
+  | put path remote q body =>
+    simp only [decideOp] at h
+    split at h
+    · cases h
+    · next reg hreg =>
+      split at h
+      · cases h
+      · split at h
+        · cases h
+        · next r' hr' =>
+          cases h
+          have hm := (hi.pathToKey _ _ (aget_some_mem hreg)).2
+          exact updateParams_base (r := r') hr' (hb reg ((mem_regs hi).mpr hm))
+  | delete path => simp only [decideOp] at h; split at h <;> cases h
+  | read path => simp only [decideOp] at h; split at h <;> cases h
+  | advance dt => simp [decideOp] at h
+  | lookupEp q => simp only [decideOp] at h; split at h <;> cases h
+  | lookupRes q => simp only [decideOp] at h; split at h <;> cases h
+
+theorem step_basesOk {c : Cfg} {s : State} (op : Op) (hi : Inv s) (hl : AllLive c s)
+    (hb : BasesOk s) : BasesOk (step c s op).1 := by
+  intro x hx
+  rcases ((step_mem op hi hl x).mp hx).2 with hw | ⟨hm, _⟩
+  · cases hd : decideOp s op <;> simp [hd, Action.effect] at hw
+    subst hw
+    exact decideOp_write_base hi hb hd
+  · exact hb x hm
+
+theorem finalState_basesOk {c : Cfg} {s : State} (hi : Inv s) (hl : AllLive c s) (hb : BasesOk s)
+    (ops : List Op) : BasesOk (finalState c s ops) := by
+  induction ops generalizing s with
+  | nil => exact hb
+  | cons op ops ih =>
+    rw [finalState_cons]
+    exact ih (step_inv op hi) (step_allLive op hi hl) (step_basesOk op hi hl hb)
 
 -- the abstract specification: a finite map (ep, d) ↦ registration ---------------------------------------
 
